@@ -56,4 +56,16 @@ theorem inspect_text_lists_every_edge_once (g : G Label Hex) (hp : PlainLabels g
   obtain ⟨u, _, hu⟩ := List.mem_flatMap.1 hm
   exact hp u _ hu
 
+/-- **the `Debug` / `Display` text reads back as the vertex records** (`Algo/RenderDebug.lean`): a strict reader recovers
+    from the text alone one record per present vertex in ascending order (`debug_exact`: the ids are `keys g`), each with
+    all its edges in stored order (labels as label values) and its data as bytes; what follows the records is exactly the
+    lines of the group tables -/
+theorem debug_text_reads_back (g : G Label Hex) (hp : PlainLabels g) :
+    readDebug (toDebug g).toList = some (debugDoc g, joinNl (branchLines g)) ∧
+    (debugDoc g).map (·.id) = keys g ∧ ∀ n ∈ debugDoc g, n.edges = edg g n.id ∧ n.data = dataOf g.vs[n.id]! := by
+  refine ⟨?_, Rs.debug_exact g⟩
+  unfold toDebug
+  rw [String.toList_ofList]
+  exact readDebug_chars g hp
+
 end Props.C20
